@@ -5,13 +5,24 @@ import vlib
 
 
 def pipe(mode):
-    def run_cases(ctx, verdict, cases, name="geomops"):
+    def run_batch(ctx, verdict, cases, name):
         obs = vlib.run_driver(ctx, "geomops", cases)
         viols = vlib.model_b(ctx, "GeomOpsObs", "Obs.cfg", obs, env={"MODE": mode}, name="GeomOpsObs/" + mode, timeout=3600)
         for idx, v in viols:
             verdict.add(name, v["sig"], cases[idx], dict(step=v["step"], obs_step=(
                 obs[idx].get("steps") or [None])[max(0, v["step"] - 1)] if v["step"] else obs[idx].get("ev")))
         return obs
+
+    def run_cases(ctx, verdict, cases, name="geomops"):
+        # replayed and decided in batches: the recorded projections of a million behaviours do not fit in memory at once
+        B = 150000
+        if len(cases) <= B:
+            return run_batch(ctx, verdict, cases, name)
+        first = None
+        for i in range(0, len(cases), B):
+            obs = run_batch(ctx, verdict, cases[i:i + B], name)
+            first = first if first is not None else obs[:50]
+        return first
     return run_cases
 
 
